@@ -416,6 +416,11 @@ class Interp:
                         mod = importlib.import_module(modname)
                         self.env[nm] = getattr(mod, a.name) if isinstance(s, ast.ImportFrom) else importlib.import_module(a.name.split(".")[0])
                         continue
+                    if isinstance(s, ast.ImportFrom) and ((s.module or "").startswith("sigma") or s.level) and nm[:1].isupper():
+                        # a class of the analysed package the rule gives no stand-in for: a recording stub, as for the
+                        # classes a module imports at its top
+                        self.env[nm] = type(nm, (Recorded,), {})
+                        continue
                     raise AnalysisError(f"tabulation: no stand-in for imported name {a.asname or a.name}")
             elif isinstance(s, ast.Match):
                 subject = self.ev(s.subject)
